@@ -17,15 +17,23 @@ struct KnotCase {
   std::vector<R> knots;
   int route = 0;  // 0 knots alone, 1 own grid instance, 2 equal twin, 3 free fn
   const char *pattern = "";
+  bool wellScaled = true;  // inside the C16 family (no power-of-two rescaling)
 };
 
-KnotCase genKnots(Ctx &c, Rng &g, bool wellScaled) {
+KnotCase genKnots(Ctx &c, Rng &g, bool wellScaled, int scaleExp) {
   KnotCase kc;
   const uint64_t k = c.caseId;
   kc.p = k % (MAXP + 1);
   const int pat = (int)((k / (MAXP + 1)) % 8);
   const size_t nd = (size_t)g.range(2, pat == 7 ? 14 : 8);
   kc.distinct = genGrid(g, wellScaled, nd, nd);
+  if (scaleExp != 0) {
+    // exact power-of-two rescaling (floating runs): "any positive spacings"
+    const R f = scaleExp > 0 ? R(vq::Z(1) << (unsigned)scaleExp)
+                             : R(R(1) / R(vq::Z(1) << (unsigned)(-scaleExp)));
+    for (auto &x : kc.distinct) x *= f;
+    kc.wellScaled = false;
+  }
   kc.mult.assign(kc.distinct.size(), 1);
   const size_t p = kc.p;
   auto rndMult = [&]() { return (size_t)g.range(1, (int64_t)p + 2); };
@@ -155,7 +163,8 @@ void checkOrder(Ctx &c, const KnotCase &kc) {
                   knotStr(kc) + " function i=" + std::to_string(i) + ": " +
                       v.why);
       if constexpr (!ST<T>::exact)
-        c.violation("C16", "generate/" + tag, knotStr(kc) + " " + v.why);
+        if (kc.wellScaled)
+          c.violation("C16", "generate/" + tag, knotStr(kc) + " " + v.why);
       return;
     }
     if (!model::dzerop(ref[i])) anyNonZero = true;
@@ -245,7 +254,20 @@ template <typename T>
 void runCase(Ctx &c) {
   Rng g = c.rng();
   const bool wellScaled = !ST<T>::exact || c.param("wellscaled", 0);
-  KnotCase kc = genKnots(c, g, wellScaled);
+  // Floating types only: half of the cases are rescaled by an exact power of
+  // two (no overflow/underflow by construction: (3+|e|)*p stays far inside
+  // the exponent range), which leaves every rounding error relatively
+  // unchanged, so the same bound applies.
+  int scaleExp = 0;
+  if constexpr (!ST<T>::exact) {
+    const size_t p = c.caseId % (MAXP + 1);
+    const int L = std::is_same_v<T, float> ? 100 : 900;
+    const int emax = std::min(200, L / (int)std::max<size_t>(p, 1) - 3);
+    static const int num[] = {0, 0, -4, -2, 2, -1, 1, 0};
+    scaleExp = emax * num[(c.caseId / ((MAXP + 1) * 8)) % 8] / 4;
+    c.count(scaleExp == 0 ? "scale:1" : (scaleExp < 0 ? "scale:tiny" : "scale:huge"));
+  }
+  KnotCase kc = genKnots(c, g, wellScaled, scaleExp);
   dispatchOrder<MAXP>(kc.p, [&](auto P) { checkOrder<T, P.value>(c, kc); });
 }
 
